@@ -47,10 +47,15 @@ inline uint64_t from_value(const RegisterValue &v) {
 struct CbStore { RegisterArea *area; uint16_t *mem; uint32_t size; unsigned long reads = 0, writes = 0; };
 inline std::vector<CbStore> &cbstores() { static std::vector<CbStore> v; return v; }
 inline CbStore *find_store(const RegisterArea *a) { for (auto &s : cbstores()) if (s.area == a) return &s; return nullptr; }
+// one read callback call (the countdown-th from now) answers that the content is unreadable: code INVALID or RANGE, .address = the register
+// address it was asked for (base + offset, as the in-tree persistent-storage glue reports it) - a driver's report, not a handle
+struct OneShotRead { long countdown = -1; int code = 0; bool fired = false; uint32_t address = 0; };
+inline OneShotRead &cb_read_oneshot() { static OneShotRead o; return o; }
 inline long &cb_read_faults() { static long n = -1; return n; }   // >= 0: that many reads still succeed, all later ones report an I/O error
 extern "C" inline RegisterAccess vp_cb_read(const RegisterArea *a, RegisterAtom *dst, RegisterOffset off, RegisterOffset n) {
     RegisterAccess rv = REG_ACCESS_RESULT_INIT;
     CbStore *s = find_store(a);
+    { OneShotRead &o = cb_read_oneshot(); if (o.countdown >= 0) { if (o.countdown-- == 0) { o.fired = true; o.address = a->base + off; rv.code = (RegisterAccessCode)o.code; rv.address = o.address; return rv; } } }
     if (cb_read_faults() >= 0) { if (cb_read_faults() == 0) { rv.code = REG_ACCESS_IO_ERROR; rv.address = a->base + off; return rv; } cb_read_faults()--; }   // the device behind the area stops answering
     s->reads++;
     memcpy(dst, s->mem + off, n * sizeof(RegisterAtom));   // exact-size block: an out-of-range request is an ASan report
@@ -65,7 +70,16 @@ extern "C" inline RegisterAccess vp_cb_write(RegisterArea *a, const RegisterAtom
     memcpy(s->mem + off, src, n * sizeof(RegisterAtom));
     return rv;
 }
-template <int ID> bool vp_validator(const RegisterEntry *e, RegisterValue v) { return rm::cb_pred(ID, (int)e->type, from_value(v)); }
+// A validator shared by several registers can tell which one it is asked about only through the entry pointer it is handed (the signature carries
+// neither table nor handle): e == register_get_entry(t, R), e - t->entry, or a pointer kept from an earlier call. So the pointer must be the
+// table's own entry, not a copy: every validator call checks that e lies in the entry array of a live table and counts the calls where it does not.
+inline std::vector<std::pair<const RegisterEntry *, size_t>> &entry_arrays() { static std::vector<std::pair<const RegisterEntry *, size_t>> v; return v; }
+inline unsigned long &foreign_entry_calls() { static unsigned long n = 0; return n; }
+inline void note_entry_pointer(const RegisterEntry *e) {
+    for (auto &a : entry_arrays()) if (e >= a.first && e < a.first + a.second && ((const char *)e - (const char *)a.first) % sizeof(RegisterEntry) == 0) return;
+    if (!entry_arrays().empty()) foreign_entry_calls()++;
+}
+template <int ID> bool vp_validator(const RegisterEntry *e, RegisterValue v) { note_entry_pointer(e); return rm::cb_pred(ID, (int)e->type, from_value(v)); }
 inline validatorFunction validator(int id) { return id == 0 ? (validatorFunction)vp_validator<0> : id == 1 ? (validatorFunction)vp_validator<1> : (validatorFunction)vp_validator<2>; }
 
 // A live table: area and entry arrays (with END sentinels) and all storage in exact-size heap blocks.
@@ -96,6 +110,14 @@ struct Live {
                 if ((a.base ^ a.size) & 1) { uint16_t *decoy = (uint16_t *)malloc((a.size ? a.size : 1) * sizeof(uint16_t)); for (uint32_t k = 0; k < a.size; k++) decoy[k] = (uint16_t)(0x7e00 + 3 * k); decoys.push_back(decoy); ra.mem = decoy; }
             }
         }
+        fill_entries(entries, td);
+        memset(&t, 0, sizeof t);
+        t.area = areas; t.entry = entries;
+        register_make_bigendian(&t, td.big);
+        entry_arrays().push_back({entries, ne});
+    }
+    static void fill_entries(RegisterEntry *entries, const TableD &td) {
+        size_t ne = td.regs.size();
         for (size_t i = 0; i < ne; i++) {
             const RegD &r = td.regs[i];
             RegisterEntry &e = entries[i];
@@ -110,12 +132,10 @@ struct Live {
             }
         }
         entries[ne].type = REG_TYPE_INVALID;
-        memset(&t, 0, sizeof t);
-        t.area = areas; t.entry = entries;
-        register_make_bigendian(&t, td.big);
     }
     Live(const Live &) = delete;
-    ~Live() { for (auto *m : storage) free(m); for (auto *m : decoys) free(m); free(areas); free(entries); cbstores().clear(); }
+    ~Live() { for (size_t i = 0; i < entry_arrays().size(); i++) if (entry_arrays()[i].first == entries) { entry_arrays().erase(entry_arrays().begin() + (long)i); break; }
+              for (auto *m : storage) free(m); for (auto *m : decoys) free(m); free(areas); free(entries); cbstores().clear(); }
     RegisterInit init() { return register_init(&t); }
     // A boot that needs two attempts, on the same table object: the definition is wrong for the first register_init (mode 1: the last register lies
     // behind all areas; mode 2: register k's default is refused by its validator), gets corrected, and register_init runs again. Returns the result
@@ -145,6 +165,34 @@ struct Live {
         return -1;
     }
     void copy_from(const rm::Space &m) { for (size_t i = 0; i < d->areas.size(); i++) memcpy(storage[i], m.mem[i].data(), d->areas[i].size * 2); }
+};
+
+// A second table that is another view of the same RegisterArea array (a "service" view next to the "user" view, or the same registers in the
+// other byte order): its own RegisterTable object and entry array - the registers of the first view plus up to three unconstrained u16
+// registers in words the first view leaves free - over the areas, storage and callbacks of `lv`. Initialised after `lv`, so whatever
+// register_init leaves in the shared area descriptions now describes this view's entry array.
+struct View {
+    TableD d; RegisterTable t; RegisterEntry *entries;
+    explicit View(Live &lv) : d(*lv.d) {
+        rm::Space m; m.init(d);
+        std::vector<bool> used; unsigned added = 0;
+        for (auto &a : d.areas) for (uint32_t k = 0; k < a.size && added < 3; k++) {
+            uint32_t ad = a.base + k; bool free_word = true;
+            for (auto &r : d.regs) if (ad >= r.addr && ad < r.end()) free_word = false;
+            if (!free_word) continue;
+            rm::RegD n; n.type = rm::U16; n.addr = ad; n.ckind = rm::C_NONE; n.lo = n.hi = 0; n.cb = 0; n.def = 0;
+            d.regs.push_back(n); added++;
+        }
+        std::sort(d.regs.begin(), d.regs.end(), [](const rm::RegD &a, const rm::RegD &b) { return a.addr < b.addr; });
+        entries = (RegisterEntry *)calloc(d.regs.size() + 1, sizeof(RegisterEntry));
+        Live::fill_entries(entries, d);
+        memset(&t, 0, sizeof t);
+        t.area = lv.areas; t.entry = entries;
+        register_make_bigendian(&t, d.big);
+        entry_arrays().push_back({entries, d.regs.size()});
+    }
+    View(const View &) = delete;
+    ~View() { for (size_t i = 0; i < entry_arrays().size(); i++) if (entry_arrays()[i].first == entries) { entry_arrays().erase(entry_arrays().begin() + (long)i); break; } free(entries); }
 };
 
 // ---- values with boundary bias
